@@ -3,6 +3,7 @@ package vuego
 import (
 	"io"
 	"io/fs"
+	"strconv"
 	"sync"
 	"time"
 
@@ -89,6 +90,10 @@ func (v *Vue) renderNodesWithContext(ctx VueContext, w io.Writer, nodes []*html.
 		nodeCopy = append(nodeCopy, helpers.DeepCloneNode(nodes[i]))
 	}
 
+	// Identify v-once elements on the per-render copy; the shared parsed
+	// template is never written to.
+	assignSeenAttrs(ctx.FromFilename, nodeCopy)
+
 	if err := v.preProcessNodes(ctx, nodeCopy); err != nil {
 		return err
 	}
@@ -145,11 +150,6 @@ func (v *Vue) Render(w io.Writer, filename string, data any) error {
 		Processors: v.nodeProcessors,
 	})
 
-	// Assign unique IDs to all v-once elements for tracking across deep clones
-	for _, node := range dom {
-		assignSeenAttrs(&vueCtx, node)
-	}
-
 	// Use renderNodesWithContext with pre-configured context
 	return v.renderNodesWithContext(vueCtx, w, dom)
 }
@@ -198,16 +198,24 @@ func (v *Vue) loadCachedWithFrontMatter(filename string) (map[string]any, []*htm
 	return frontMatter, dom, nil
 }
 
-// assignSeenAttrs recursively assigns unique IDs to all v-once elements in the tree
-func assignSeenAttrs(ctx *VueContext, node *html.Node) {
-	if node.Type == html.ElementNode {
-		if helpers.HasAttr(node, "v-once") {
-			id := ctx.nextSeenID()
-			helpers.SetAttr(node, "v-once-id", id)
+// assignSeenAttrs gives every v-once element of a parsed template an id derived
+// from the template name and the element's position in document order, so that
+// the same element has the same id at every instantiation (loop iterations,
+// repeated includes) and distinct elements never share one.
+func assignSeenAttrs(filename string, nodes []*html.Node) {
+	n := 0
+	var walk func(node *html.Node)
+	walk = func(node *html.Node) {
+		if node.Type == html.ElementNode && helpers.HasAttr(node, "v-once") {
+			helpers.SetAttr(node, "v-once-id", filename+"#"+strconv.Itoa(n))
+			n++
+		}
+		for c := node.FirstChild; c != nil; c = c.NextSibling {
+			walk(c)
 		}
 	}
-	for c := node.FirstChild; c != nil; c = c.NextSibling {
-		assignSeenAttrs(ctx, c)
+	for _, node := range nodes {
+		walk(node)
 	}
 }
 
@@ -236,11 +244,6 @@ func (v *Vue) RenderFragment(w io.Writer, filename string, data any) error {
 		Stack:      NewStackWithData(dataMap, data),
 		Processors: v.nodeProcessors,
 	})
-
-	// Assign unique IDs to all v-once elements for tracking across deep clones
-	for _, node := range dom {
-		assignSeenAttrs(&vueCtx, node)
-	}
 
 	// Use RenderNodes with pre-configured context
 	return v.renderNodesWithContext(vueCtx, w, dom)
